@@ -205,7 +205,9 @@ const NUMS: &[&str] = &["0", "-0", "1", "-1", "01", "-01", "1.", "1.5", "1e5", "
     "-9223372036854775808", "-9223372036854775809", "18446744073709551615", "18446744073709551616", "-18446744073709551616", "170141183460469231731687303715884105727", "170141183460469231731687303715884105728",
     "-170141183460469231731687303715884105728", "-170141183460469231731687303715884105729", "340282366920938463463374607431768211455", "340282366920938463463374607431768211456", "1e400", "-1e400", "1e-400",
     "0.1", "16777217", "9007199254740993", "1e39", "3.4028235e38", "3.4028236e38", "1e-46", "0e999999999999", "1e99999999999", "0.000000000000000000000000000000000000000000001", "123456789012345678901234567890", "1.0000000000000000000000001",
-    "1 ", " 1", "1x", "1,", "1]", "+1", ".5", "1.5.5", "1ee5", "0x10", "00", "1\n", "\n1\n"];
+    "1 ", " 1", "1x", "1,", "1]", "+1", ".5", "1.5.5", "1ee5", "0x10", "00", "1\n", "\n1\n",
+    // negative integers beyond i64 whose digits fit u64: f32 targets must round once (u64 -> f32), not through f64
+    "-9223372586610589697", "-9223372552250613761", "-13835058055282163713", "-18446744073709551615", "-9223373136366403585", "9223372586610589697", "18446742974197923841"];
 
 /// one generated text: the cases emitted for it (all sources on the text itself, slice+reader on its mutations)
 fn sweep(sink: &mut Sink, cfg: &str, s: &Schema, text: &[u8], r: &mut Rng, thorough: bool, tag: &str, mutate: bool) {
